@@ -73,4 +73,4 @@ def stages(tier):
 
 
 def main(argv):
-    return schedcheck.run_stages("C07", argv, stages, assumptions=ASSUME)
+    return schedcheck.run_stages("C07", argv, stages, assumptions=ASSUME, budget={"quick": 160.0, "thorough": 1500.0})
